@@ -71,6 +71,22 @@ def rule_index_space(ctx, rid):
                             bad = ('np.where(%s == v) is computed on the sorted copy: the positions are ranks in '
                                    'sorted order, but the caller uses them as row indices of the unsorted column'
                                    % show(side)[:40])
+    if not bad and n == 0:
+        # index sets built from positions (np.arange / np.split / np.flatnonzero of the run mask) are ranks in the
+        # sorted copy unless they are composed with np.argsort of the argument
+        for e in exits:
+            v = e.value
+            if v[0] == 'tuple' and len(v[1]) == 2:
+                inds = v[1][1]
+                pos = [t for t in subterms(inds) if t[0] == 'call' and t[1] in ('numpy.arange',)]
+                srt = [t for t in subterms(inds) if t[0] == 'call' and t[1] == 'numpy.argsort'
+                       and t[2] and _space(t[2][0], param) == 'rows']
+                if pos and not srt:
+                    bad = ('the index sets are slices of np.arange(n), i.e. positions in the sorted copy, not row '
+                           'numbers of the argument (no np.argsort of the argument maps them back)')
+                    n += 1
+                elif srt:
+                    n += 1
     if bad:
         ctx.violation(rid, fi, c, bad, expected='where(<argument in original order> == v)', found=bad)
     elif n == 0:
